@@ -524,6 +524,28 @@ pub fn build_world<'a>(open_windows: u8, symbols: &[String], with_inbound: bool)
         })
         .collect();
     w.gw.approve(&env, &w.set, &msgs).expect("approve");
+    // two of them (addressed to accounts) have been consumed by their destinations already: an executed message stays executed
+    env.mock_all_auths();
+    for k in [0usize, 4] {
+        let m = &msgs[k];
+        let consumed = w.gw.client.validate_message(&m.contract_address, &m.source_chain, &m.message_id, &m.source_address, &m.payload_hash);
+        assert!(consumed, "setup: consumption by the destination refused");
+    }
+    // a message the example app has been delivered (and acted on) already
+    {
+        let payload = b"delivered-once";
+        let m = axelar_gateway::types::Message {
+            source_chain: sstr(&env, TRUSTED),
+            message_id: sstr(&env, "msg-7"),
+            source_address: sstr(&env, "hub-address"),
+            contract_address: example.clone(),
+            payload_hash: BytesN::from_array(&env, &crate::oracle::keccak256(payload)),
+        };
+        w.gw.approve(&env, &w.set, &[m]).expect("approve");
+        env.set_auths(&[]);
+        example::ExampleClient::new(&env, &example).execute(&sstr(&env, TRUSTED), &sstr(&env, "msg-7"), &sstr(&env, "hub-address"), &Bytes::from_slice(&env, payload));
+        env.mock_all_auths();
+    }
     let inbound = if with_inbound {
         // (the canonical token: the service-deployed one was deployed in the configuration of known finding C11 and cannot be minted)
         let inner = crate::oracle::AMsg::Transfer { token_id: canonical_id, source: vec![7, 7], dest: address_xdr(&env, &user_b), amount: crate::oracle::word_u128(3), data: vec![] };
@@ -634,7 +656,7 @@ impl<'a> SweepWorld<'a> {
             let pool: &[&str] = if name.contains("chain") {
                 &[TRUSTED, "avalanche", "stellar", "axelar"]
             } else if name.contains("message_id") || name == "id" {
-                &["msg-1", "msg-2"]
+                &["msg-1", "msg-2", "msg-7"]
             } else if name.contains("address") {
                 &["hub-address", "0x4F4495243837681061C4743b74B3eEdf548D56A5"]
             } else {
@@ -777,6 +799,9 @@ pub enum Rule {
     Spend,
     /// C17: the operators contract uses its powers only for a current operator
     Operators,
+    /// C16: whatever anybody calls, a message the example app has acted on is not delivered to it a second time (not even
+    /// after its public, signed approval is submitted to the gateway again)
+    Redeliver,
     /// C05: the service releases custody / mints only for approved inbound messages (none exists in the sweep)
     Value,
 }
@@ -798,6 +823,7 @@ impl Rule {
             Rule::Spend => e.contract == "interchain-token" || e.types.iter().any(|t| t == "Token" || t == "i128"),
             Rule::Operators => e.contract == "axelar-operators" && e.name == "execute",
             Rule::Value => e.contract == "interchain-token-service",
+            Rule::Redeliver => e.contract == "axelar-gateway" || e.contract == "example",
         }
     }
 }
@@ -1097,6 +1123,9 @@ fn step(sw: &SweepWorld, ep: &Ep, seeds: &[u64], pick: u64, cx: &mut Cx, rule: R
         }
         Rule::Consume => {
             for (k, (b, a)) in before.executed.iter().zip(after.executed.iter()).enumerate() {
+                if *b && !*a {
+                    return Err(format!("{} made message {:?}, which its destination had consumed, count as not executed again (it can be approved and delivered a second time)", what, (sw.approved[k].0, sw.approved[k].1)));
+                }
                 if !*b && *a {
                     cx.count("sweep_message_consumed");
                     if !authorised(&sw.approved[k].2) {
@@ -1141,6 +1170,23 @@ fn step(sw: &SweepWorld, ep: &Ep, seeds: &[u64], pick: u64, cx: &mut Cx, rule: R
                 if !signers.contains(&sw.minter) {
                     return Err(format!("{} increased the supply of the service-deployed token without its minter and without an approved inbound message", what));
                 }
+            }
+        }
+        Rule::Redeliver => {
+            let payload = b"delivered-once";
+            let m = axelar_gateway::types::Message {
+                source_chain: sstr(&env, TRUSTED),
+                message_id: sstr(&env, "msg-7"),
+                source_address: sstr(&env, "hub-address"),
+                contract_address: sw.example.clone(),
+                payload_hash: BytesN::from_array(&env, &crate::oracle::keccak256(payload)),
+            };
+            // anybody can submit the signed approval again
+            let _ = sw.w.gw.approve(&env, &sw.w.set, &[m]);
+            env.set_auths(&[]);
+            let again = example::ExampleClient::new(&env, &sw.example).try_execute(&sstr(&env, TRUSTED), &sstr(&env, "msg-7"), &sstr(&env, "hub-address"), &Bytes::from_slice(&env, payload));
+            if matches!(again, Ok(Ok(()))) {
+                return Err(format!("after {} a message the example app had already acted on was delivered to it a second time (its approval re-submitted to the gateway in between)", what));
             }
         }
         _ => {}
